@@ -100,6 +100,11 @@ class Pay:
     def replace(self, *a):
         raise Unsupported("str method on symbolic payload")
 
+    def encode(self, encoding='utf-8', errors='strict'):
+        if self.kind != 'str' or builtins.str(encoding).lower().replace('_', '-') not in ('utf-8', 'utf8'):
+            raise Unsupported("encode() of a symbolic payload other than str -> utf-8")
+        return PayBytes(self)
+
     # ---- concretisation (characters are code points)
     def concrete(self, eng):
         vals = [eng.value(_c(c)) if not builtins.isinstance(c, int) else c for c in self.cs]
@@ -117,6 +122,47 @@ class Pay:
 
 def _c(x):
     return z3.IntVal(x) if builtins.isinstance(x, int) else x
+
+
+class PayBytes:
+    """UTF-8 encoding of a symbolic str: only its length is modelled (1-4 bytes per code point, no surrogates in the domain)"""
+    __slots__ = ('pay',)
+
+    def __init__(self, pay):
+        self.pay = pay
+
+    def sym_len(self):
+        tot = 0
+        for c in self.pay.cs:
+            if builtins.isinstance(c, int):
+                tot = tot + builtins.len(chr(c).encode('utf-8'))
+            else:
+                tot = tot + z3.If(c < 0x80, 1, z3.If(c < 0x800, 2, z3.If(c < 0x10000, 3, 4)))
+        if builtins.isinstance(tot, int):
+            return tot
+        return _wrapi(z3.simplify(tot))
+
+    def __len__(self):
+        raise Unsupported("len() of symbolic bytes outside a shimmed namespace")
+
+
+def shim_len(o):
+    if builtins.isinstance(o, PayBytes):
+        return o.sym_len()
+    return builtins.len(o)
+
+
+WIDE_BASES = (96, 0xE0, 0x4E00)     # 'a'.., U+00E1.. (2 bytes in UTF-8), U+4E01.. (3 bytes)
+
+
+def fresh_wide_pay(eng, name, length, alpha=3):
+    """str payload whose characters range over three blocks of code points with UTF-8 widths 1, 2 and 3 (alpha characters
+    each): every equality pattern x every width pattern is realisable"""
+    cs = []
+    for k in range(length):
+        v = eng.fresh_int(f"{name}_{k}", 1, 3 * alpha).e
+        cs.append(z3.If(v <= alpha, v + WIDE_BASES[0], z3.If(v <= 2 * alpha, v - alpha + WIDE_BASES[1], v - 2 * alpha + WIDE_BASES[2])))
+    return Pay(cs, name, 'str')
 
 
 def fresh_pay(eng, name, length, kind='int', alpha=3):
@@ -230,5 +276,6 @@ def install_leaves():
     SUMMARIES.real = lev.levenshtein_distance
     PATCHES.set(gg, 'levenshtein_distance', lev_dispatch)
     PATCHES.set(gg, 'str', shim_str)
+    PATCHES.set(gg, 'len', shim_len)
     PATCHES.set(gj, 'isinstance', json_isinstance)
     PATCHES.install()
